@@ -42,7 +42,7 @@ def check_prog(ctx, r, prog):
             decl = h.get("resp_decl_ti", h["resp_ti"])
             exp = schema_of(decl)
             if table[wn] != exp:
-                ctx.violate("part-schema" + (":resp-literal" if h.get("resp_literal") else ""), f"{pn}: {h['hid']} is declared to return {prog['types'][decl].rust} but the table carries schema `{table[h['name']].get('title')}`",
+                ctx.violate("part-schema" + (":resp-literal" if h.get("resp_literal") else ""), f"{pn}: {h['hid']} is declared to return {prog['types'][decl].rust} but the table carries schema `{table[wn].get('title')}`",
                             dict(detail, handler=h["hid"], expected=exp, observed=table[wn]))
             union[wn] = exp
             ctx.count("queries_with_explicit_resp" if h.get("resp_explicit") else "queries_with_inferred_resp")
